@@ -130,8 +130,12 @@ func (c *Compactor) Compact() (*CompactionResult, error) {
 	}
 	reader.Close()
 
-	// Create temp file for new data (always V3 format with name in header area)
+	// Create temp file for new data (always V3 format with name in header area).
+	// Remove any leftover temp from a previous interrupted compaction first:
+	// NewFileWriterWithName appends to an existing file, which would bring the
+	// stale entries of that temp back into the compacted file.
 	tempPath := c.filePath + ".compact"
+	_ = os.Remove(tempPath)
 	writer, err := NewFileWriterWithName(tempPath, c.maxBlockSize, swampName)
 	if err != nil {
 		result.Error = err
